@@ -120,6 +120,11 @@ def drivers():
         from amr_kitchen import PlotfileCooker
         pck = PlotfileCooker(p["A"])
         r = pck[:][0][:] + pck[["u", "w"]][0][[0, -1]] + list(pck["v"][0].iter(slice(None, None, -1)))
+        # field lists that do not start at the first field, over every box (map() hands several of these tasks to a worker in
+        # one chunk when it has few workers), and one stream used for several selections
+        r += pck[["v", "w"]][0][:]
+        s = pck[[1, 2]][0]
+        r += s[::-1] + s[[0, -1]] + [s[1]] + s[:]
         return [harr(a) for a in r]
 
     @reg("reader.iterate")
